@@ -50,21 +50,33 @@ SnapTwin ==
     /\ t_raw' = raw /\ t_pass' = pass
     /\ UNCHANGED <<t_ckpt, t_raised, t_h>>
 
-JTrain(n) == Train(n) /\ Twin!Train(n) /\ UNCHANGED cond
-JEval == EvalPass /\ Twin!EvalPass /\ UNCHANGED cond
+\* both runs advance together before the checkpoint and after the resume;
+\* between the checkpoint and the crash only the main run works (Lost*)
+Together == ~ckpt.has \/ cond # "none"
+JTrain(n) == Together /\ Train(n) /\ Twin!Train(n) /\ UNCHANGED cond
+JEval == Together /\ EvalPass /\ Twin!EvalPass /\ UNCHANGED cond
 JStep ==
-    \/ (StepOK /\ Twin!StepOK /\ UNCHANGED cond)
-    \/ (StepRaises /\ UNCHANGED <<tvars, cond>>)
-    \/ (StepOK /\ Twin!StepRaises /\ UNCHANGED cond)
+    /\ Together
+    /\ \/ (StepOK /\ Twin!StepOK /\ UNCHANGED cond)
+       \/ (StepRaises /\ Twin!StepRaises /\ UNCHANGED cond)
+       \/ (StepRaises /\ Twin!StepOK /\ UNCHANGED cond)
+       \/ (StepOK /\ Twin!StepRaises /\ UNCHANGED cond)
 \* only checkpoints at step boundaries (nothing accumulated, no pending grads)
 AtBoundary == raw = <<>> /\ aAcc = <<>> /\ gAcc = <<>> /\ mini = 0
-JSave(b) == AtBoundary /\ Save(b) /\ SnapTwin /\ UNCHANGED cond
+JSave(b) == cond = "none" /\ AtBoundary /\ Save(b) /\ SnapTwin /\ UNCHANGED cond
 \* work done after the checkpoint and lost by the crash: main only
 Lost(n) == ckpt.has /\ cond = "none" /\ Train(n) /\ UNCHANGED <<tvars, cond>>
 LostStep == ckpt.has /\ cond = "none" /\ StepOK /\ UNCHANGED <<tvars, cond>>
+\* pass ids name data batches: after the resume both runs see the same future
+\* batches, so the twin's counter is aligned with main's
+tvarsNoPass == <<t_steps, t_fv, t_iv, t_fl, t_mini, t_aAcc, t_gAcc, t_aFac,
+                 t_gFac, t_inv, t_raw, t_ckpt, t_raised, t_h>>
 JLoad(b) ==
+    /\ cond = "none"       \* one crash / resume per behaviour
+    /\ raw = <<>>          \* the crash happens at a step boundary of the main run
     /\ Load(b)
-    /\ UNCHANGED tvars
+    /\ t_pass' = pass
+    /\ UNCHANGED tvarsNoPass
     /\ cond' = IF ( /\ ckpt.inc
                  /\ t_raw = <<>>
                  /\ \/ ~t_inv.has /\ ~ckpt.aFac.has
@@ -99,6 +111,10 @@ ResumeEq ==
             /\ Len(Last(h).x.grad.raw) > 0 /\ Last(h).x.grad.raw = Last(t_h).x.grad.raw)
               => /\ SameInvValue(Last(h).x.grad.inv, Last(t_h).x.grad.inv)
                  /\ SameValue(Last(h).x.grad.dampUse, Last(t_h).x.grad.dampUse)
+\* vacuity guards: both outcomes of the condition are reachable (TLC must
+\* report these two "invariants" as violated)
+NeverYes == cond # "yes"
+NeverNo == cond # "no"
 \* a resumed run never raises where the uninterrupted one does not
 NoNewRaise == (cond = "yes" /\ ~t_raised) => ~raised
 =============================================================================
